@@ -7,7 +7,10 @@
 #  3. every seeded fault under /verif/seeded/*/ (patch.diff + meta.json): golib's own suite must
 #     still pass with the patch, and every check listed in meta.json "caught_by" must exit 1
 #     with a VIOLATION line, twice. Results are written to /verif/seeded/RESULTS.md.
-# Usage: selftest.sh [rewrite|shims|engine|mutants|seeded [name...]]
+#  4. every behaviour-preserving change under /verif/refactors/*/ (patch.diff + meta.json "checks"):
+#     every listed check must stay silent (exit 0) — except entries whose meta.json carries
+#     "expect": 1 (the tree still has the recorded known defect, at another call site).
+# Usage: selftest.sh [rewrite|shims|engine|mutants|seeded [name...]|refactors [name...]]
 set -u
 VERIF=/verif
 export GOFLAGS=-mod=mod GOPROXY=off GOSUMDB=off GOTOOLCHAIN=local GOCACHE=${VERIF_GOCACHE:-/verif/.cache/go-build}
@@ -59,6 +62,22 @@ if [ "$what" = all ] || [ "$what" = mutants ]; then
     [ -z "$patch" ] && continue
     out=$($VERIF/mutant.sh $VERIF/mutants/$patch $id quick 2>&1); code=$?
     if [ "$code" = "$want" ]; then echo "mutant $patch: $id exit $code as expected ($(echo "$out" | grep -m1 '^  violation' | cut -c1-140))"; else echo "MUTANT-UNEXPECTED $patch: $id exit $code, expected $want"; fi
+  done
+fi
+if [ "$what" = all ] || [ "$what" = refactors ]; then
+  cd $VERIF
+  names="$*"; [ "$what" = all ] && names=""
+  [ -z "$names" ] && names=$(ls $VERIF/refactors 2>/dev/null)
+  for n in $names; do
+    d=$VERIF/refactors/$n
+    [ -f $d/patch.diff ] || continue
+    checks=$(python3 -c "import json;print(json.load(open('$d/meta.json'))['checks'])")
+    expect=$(python3 -c "import json;print(json.load(open('$d/meta.json')).get('expect',0))")
+    for c in $checks; do
+      out=$($VERIF/mutant.sh $d/patch.diff $c quick 2>&1); got=$(echo "$out" | sed -n 's/^mutant exit=//p' | tail -1)
+      want=0; [ "$c" = "${n%%-*}" ] && want=$expect
+      if [ "$got" = "$want" ]; then echo "refactor $n: $c exit $got as expected"; else echo "REFACTOR-ALARM $n: $c exit '$got' (want $want) $(echo "$out" | grep -m1 'violation \"\|CHECK-ERROR' | cut -c1-200)"; rc=1; fi
+    done
   done
 fi
 exit $rc
